@@ -1,8 +1,10 @@
 package c10
 
 import (
+	"fmt"
 	"testing"
 
+	"verifharness/cw"
 	"verifharness/vh"
 )
 
@@ -35,6 +37,8 @@ func TestC10(t *testing.T) {
 		{"setnode-update-fails", []Op{{Kind: "setnode", Node: 1, SetMem: true, Delta: true, Mem: 500}}, 0, FaultSpec{Method: "UpdateNodes", Target: "*", Ord: 0}},
 		{"replace-remove-old-fails", []Op{{Kind: "create", Pod: 0, Count: 1, CPU: 50, Mem: 100}, {Kind: "replace"}}, 1, FaultSpec{Method: "RemoveWorkload", Target: "*", Ord: 0}},
 		{"addnode-store-fails", []Op{{Kind: "addnode", Node: 7, Pod: 1, CPU: 400, Mem: 1000}}, 0, FaultSpec{Method: "AddNode", Target: "n7", Ord: 1}},
+		{"create-add-workload-fails-late", []Op{{Kind: "create", Pod: 0, Count: 5, CPU: 50, Mem: 100}}, 0, FaultSpec{Method: "AddWorkload", Target: "*", Ord: 3}},
+		{"create-inspect-fails", []Op{{Kind: "create", Pod: 1, Count: 4, CPU: 50, Mem: 100}}, 0, FaultSpec{Method: "VirtualizationInspect", Target: "*", Ord: 2}},
 		{"no-fault-mixed", []Op{{Kind: "create", Pod: 0, Count: 4, CPU: 100, Mem: 300}, {Kind: "create", Pod: 1, Count: 2, CPU: 50, Mem: 700}, {Kind: "remove", Force: false}, {Kind: "dissociate"}}, -1, FaultSpec{}},
 	}
 	for _, c := range corpus {
@@ -63,8 +67,79 @@ func TestC10(t *testing.T) {
 		d.w.Close()
 	}
 
+	// ---- thorough: every call index of the (first faultable) operation of each corpus scenario
+	if r.Tier == "thorough" {
+		for _, c := range corpus {
+			if c.fault < 0 {
+				continue
+			}
+			// fault-free run to learn the calls of the operation
+			runScenario := func(f *FaultSpec) (*history, []cw.Call) {
+				d := newDriver(t, r.Rng, true)
+				defer d.w.Close()
+				h := &history{Strict: true}
+				d.setup(h, 2, 3, 1000)
+				var log []cw.Call
+				for i, o := range c.ops {
+					d.opi++
+					o.Opi = d.opi
+					if o.Kind == "remove" || o.Kind == "dissociate" || o.Kind == "realloc" || o.Kind == "replace" {
+						live := d.liveList()
+						if len(live) == 0 {
+							continue
+						}
+						o.IDs = []string{live[0].Canon}
+					}
+					var ff *FaultSpec
+					if i == c.fault {
+						ff = f
+					}
+					st := d.run(o, ff)
+					if i == c.fault {
+						log = d.w.IC.Log()
+						if st.Hit == "" {
+							st.Fault = nil
+						}
+					}
+					h.Steps = append(h.Steps, st)
+				}
+				return h, log
+			}
+			_, log := runScenario(nil)
+			seen := map[string]bool{}
+			mcount := map[string]int{}
+			for _, cl := range log {
+				if cl.Bg {
+					continue
+				}
+				mord := mcount[cl.Method]
+				mcount[cl.Method] = mord + 1
+				if cl.Party == "lock" && cl.Method == "Unlock" {
+					continue
+				}
+				// container ids differ between runs only in their uniq suffix: address engine calls by node
+				spec := FaultSpec{Method: cl.Method, Target: cl.Target, Ord: cl.Ord}
+				if cl.Party == "engine" && cl.Node != "" && cl.Target != cl.Node || cl.Method == "AddWorkload" || cl.Method == "RemoveWorkload" || cl.Method == "UpdateWorkload" || cl.Method == "GetWorkload" || cl.Method == "GetWorkloads" || cl.Method == "CreateLock" || cl.Party == "lock" {
+					spec = FaultSpec{Method: cl.Method, Target: cl.Node, Ord: cl.NodeOrd, ByNode: true}
+					if cl.Node == "" {
+						spec = FaultSpec{Method: cl.Method, Target: "*", Ord: mord}
+					}
+				}
+				key := fmt.Sprintf("%s/%s/%d/%v", spec.Method, spec.Target, spec.Ord, spec.ByNode)
+				if seen[key] {
+					continue
+				}
+				seen[key] = true
+				sp := spec
+				h, _ := runScenario(&sp)
+				emit(r, h, map[string]any{"corpus": c.name, "enumerated": true})
+				r.Count("enumerated")
+			}
+		}
+	}
+
 	// ---- random histories
-	n := r.N(15, 1200)
+	n := r.N(15, 500)
 	for i := 0; i < n; i++ {
 		strict := r.Rng.Intn(2) == 0
 		d := newDriver(t, r.Rng, strict)
